@@ -487,7 +487,7 @@ func c19H3(p *core.Prog, r *core.Run, rt *ssa.Function) {
 	}
 	// filter parameters of a filtered result value: the keys of the ALPN set and
 	// the must-have flag the DeleteFunc predicate was created with
-	filterOf := func(res ssa.Value) (keys []string, must string, ok bool) {
+	filterOf := func(res ssa.Value, pick func(ssa.Value) ssa.Value) (keys []string, must string, ok bool) {
 		ld, isLoad := strip(res).(*ssa.UnOp)
 		var cell *ssa.Alloc
 		if isLoad {
@@ -498,7 +498,7 @@ func c19H3(p *core.Prog, r *core.Run, rt *ssa.Function) {
 			if c, isCall := strip(res).(*ssa.Call); isCall {
 				e := p.X(c)
 				if e.Fn != nil && core.Root(e.Fn) == rt && len(c.Call.Args) == 2 && len(callSites(p, core.Closures(e.Fn), `slices\.DeleteFunc`)) == 1 {
-					if m, isMap := strip(c.Call.Args[0]).(*ssa.MakeMap); isMap {
+					if m, isMap := strip(pick(strip(c.Call.Args[0]))).(*ssa.MakeMap); isMap {
 						for _, ref := range *m.Referrers() {
 							if mu, ok := ref.(*ssa.MapUpdate); ok {
 								keys = append(keys, p.X(mu.Key).Name)
@@ -506,7 +506,7 @@ func c19H3(p *core.Prog, r *core.Run, rt *ssa.Function) {
 						}
 					}
 					sort.Strings(keys)
-					return keys, p.X(c.Call.Args[1]).Name, true
+					return keys, p.X(pick(c.Call.Args[1])).Name, true
 				}
 			}
 			return nil, "", false
@@ -536,7 +536,7 @@ func c19H3(p *core.Prog, r *core.Run, rt *ssa.Function) {
 					}
 					stores, _ := p.CellDefs(al)
 					for _, cs := range stores {
-						switch v := strip(cs.Val).(type) {
+						switch v := strip(pick(strip(cs.Val))).(type) {
 						case *ssa.Const:
 							if v.Value != nil && (v.Value.ExactString() == "true" || v.Value.ExactString() == "false") {
 								must = v.Value.ExactString()
@@ -604,16 +604,31 @@ func c19H3(p *core.Prog, r *core.Run, rt *ssa.Function) {
 		type dcase struct {
 			recv, res ssa.Value
 			fs        []core.Fact
+			pick      func(ssa.Value) ssa.Value
 		}
+		same := func(v ssa.Value) ssa.Value { return v }
 		var cases []dcase
 		rph, isRP := strip(recv).(*ssa.Phi)
 		vph, isVP := strip(resVal).(*ssa.Phi)
 		if isRP && isVP && rph.Block() == vph.Block() {
 			for i := range rph.Edges {
-				cases = append(cases, dcase{rph.Edges[i], vph.Edges[i], append(p.Facts(s.Block()), p.EdgeFacts(rph.Block().Preds[i], rph.Block())...)})
+				cases = append(cases, dcase{rph.Edges[i], vph.Edges[i], append(p.Facts(s.Block()), p.EdgeFacts(rph.Block().Preds[i], rph.Block())...), same})
+			}
+		} else if isRP {
+			// the round-tripper and the filter's parameters are selected together,
+			// the filtering itself happens once afterwards: one case per way in,
+			// with every selection of that block taken from the same way
+			for i := range rph.Edges {
+				pick := func(v ssa.Value) ssa.Value {
+					if ph, ok := v.(*ssa.Phi); ok && ph.Block() == rph.Block() && i < len(ph.Edges) {
+						return ph.Edges[i]
+					}
+					return v
+				}
+				cases = append(cases, dcase{rph.Edges[i], resVal, append(p.Facts(s.Block()), p.EdgeFacts(rph.Block().Preds[i], rph.Block())...), pick})
 			}
 		} else {
-			cases = append(cases, dcase{recv, resVal, p.Facts(s.Block())})
+			cases = append(cases, dcase{recv, resVal, p.Facts(s.Block()), same})
 		}
 		for ci, c := range cases {
 			pol, okPol := decided(c.fs)
@@ -622,7 +637,7 @@ func c19H3(p *core.Prog, r *core.Run, rt *ssa.Function) {
 			if tr.Op == "field" && tr.Args[0].Op == "param" && tr.Args[0].Name == "p0" {
 				trName = tr.Name
 			}
-			keys, must, okF := filterOf(c.res)
+			keys, must, okF := filterOf(c.res, c.pick)
 			w := wants[pol]
 			if okPol {
 				seenPol[pol] = true
